@@ -161,3 +161,82 @@ func VerifC04CreateReload() {
 	}
 	rt.Reach("end")
 }
+
+// c04SeedModel (symbolic runs only): the PBKDF2 seed feeds nothing but key derivation, which these harnesses cut.
+func c04SeedModel(mnemonic string, password string) []byte {
+	seed := make([]byte, 64)
+	for i := range seed {
+		seed[i] = byte(5*i + 3)
+	}
+	return seed
+}
+
+// VerifC04ExportImport (property C04, the wallet's secret across export and import): a keystore is created by the
+// real initAcctBucket with arbitrary entropy, reloaded, exported with the private passphrase (real
+// exportKeystore), imported into a fresh database by the real allocAddrMgrNamespace (the body of ImportKeystore)
+// and reloaded there. The mnemonic the imported wallet reveals is the mnemonic of the original entropy - the
+// secret every address and signing key of the wallet is derived from.
+func VerifC04ExportImport() {
+	pubPass := rt.NondetBytes(rt.NondetLen(1, 2))
+	privPass := rt.NondetBytes(rt.NondetLen(1, 2))
+	entropy := rt.NondetBytes(16)
+	want, werr := NewMnemonic(append([]byte(nil), entropy...))
+	rt.Assert(werr == nil, "reference-mnemonic")
+	seed := make([]byte, 32)
+	for i := range seed {
+		seed[i] = byte(7*i + 1)
+	}
+	hdkeychain.VerifChildStub = c04ChildStub
+	hdkeychain.VerifNeuterStub = c04NeuterStub
+	check := func(sh []byte) (bool, error) { return false, nil }
+	sc := &ScryptOptions{N: 16, R: 8, P: 1}
+	db1 := mdb.New()
+	db1.Top("km")
+	params := &WalletParams{Version: KeystoreVersionLatest, PrivatePassphrase: append([]byte(nil), privPass...), AddressGapLimit: 1}
+	var ks *Keystore
+	err := mwdb.Update(db1, func(tx mwdb.DBTransaction) error {
+		kmb := tx.TopLevelBucket("km")
+		meta, e := initAcctBucket(tx, kmb.GetBucketMeta(), config.ChainParams, params, sc,
+			&hdPath{}, append([]byte(nil), pubPass...), append([]byte(nil), entropy...), seed, check)
+		if e != nil {
+			return e
+		}
+		am, e := loadAddrManager(tx.FetchBucket(meta), pubPass, config.ChainParams)
+		if e != nil {
+			return e
+		}
+		ks, e = am.exportKeystore(tx, privPass)
+		rt.Assert(e == nil, "export-with-the-right-passphrase")
+		return e
+	})
+	if err != nil {
+		rt.Reach("unusable")
+		rt.Reach("end")
+		return
+	}
+	db2 := mdb.New()
+	db2.Top("km")
+	var got string
+	err = mwdb.Update(db2, func(tx mwdb.DBTransaction) error {
+		kmb := tx.TopLevelBucket("km")
+		km := &KeystoreManager{managedKeystores: map[string]*AddrManager{}, ksMgrMeta: kmb.GetBucketMeta(), pubPassphrase: pubPass}
+		meta, e := km.allocAddrMgrNamespace(tx, privPass, pubPass, ks, check, config.ChainParams, sc, 1)
+		rt.Assert(e == nil, "import-of-an-exported-keystore-with-its-passphrase")
+		if e != nil {
+			return e
+		}
+		am, e := loadAddrManager(tx.FetchBucket(meta), pubPass, config.ChainParams)
+		rt.Assert(e == nil, "imported-keystore-reloads")
+		if e != nil {
+			return e
+		}
+		got, _, e = am.getMnemonic(tx, privPass)
+		rt.Assert(e == nil, "imported-wallet-reveals-its-mnemonic")
+		return e
+	})
+	if err == nil {
+		rt.Assert(got == want, "imported-wallet-has-the-exported-wallets-mnemonic")
+		rt.Reach("imported")
+	}
+	rt.Reach("end")
+}
